@@ -127,6 +127,20 @@ theorem job_run_ok_iff_all (ty : α → Nat) (batched : Nat → Bool) (verify1 :
         (hperm.mem_iff).1 (List.mem_append.2 (Or.inl ht))
       rw [h t hmem] at hk; cases hk
 
+/-- **Overlapping signature jobs on one pool.** For any sequence of blocks whose signature jobs
+share one worker pool (created / submitted / completed in any order, as happens when `Execute`
+returns early on another error while its signature job is still running), every block's verdict
+is determined by its own auths only: no error iff all of *its* auths verify. -/
+theorem pool_verdicts_per_job (ty : α → Nat) (batched : Nat → Bool) (verify1 : α → Bool) (cores : Nat)
+    (blocks : List (List α × JobObs α))
+    (hsub : ∀ b ∈ blocks, b.2.tasks = blockTasks ty batched cores b.1)
+    (run : PoolRun verify1 (blocks.map (·.2))) :
+    ∀ b ∈ blocks, (b.2.err = false ↔ ∀ x ∈ b.1, verify1 x = true) := by
+  intro b hb
+  have hj : JobRun verify1 b.2.tasks b.2.executed b.2.err := run b.2 (List.mem_map.2 ⟨b, hb, rfl⟩)
+  rw [hsub b hb] at hj
+  exact job_run_ok_iff_all ty batched verify1 cores b.1 b.2.executed b.2.err hj
+
 /-- a batched type's tasks succeed iff all its items verify (so verifying the last full batch a
 second time when the count is an exact multiple of the batch size changes nothing) -/
 theorem typeTasks_all_eq (verify1 : α → Bool) (cores : Nat) (xs : List α) :
